@@ -174,6 +174,16 @@ class Sym:
             return None
         return info[1].get(value)
 
+    def variant_taken(self, discr_expr, taken, vals):
+        """Like variant(), and on the fall-through edge the one variant the listed values leave (if exactly one)."""
+        if taken != "otherwise":
+            return self.variant(discr_expr, taken)
+        info = self.enums.get(discr_expr)
+        if not info:
+            return None
+        rest = [nm for v, nm in info[1].items() if v not in vals]
+        return rest[0] if len(rest) == 1 else None
+
     def promoted(self, idx):
         """Value of promoted constant #idx of this body (a reference to a constant value)."""
         if idx in self._prom:
